@@ -25,7 +25,10 @@ ApLists == { <<>>,
              << <<"ipv4", 7>> >>,                                     \* invalid mode (extra bits)
              << <<"ipv4", 3>>, <<"ipv4", 0>> >>, << <<"ipv4", 1>>, <<"ipv4", 2>> >>,   \* conflicting duplicates
              << <<"ipv4vpn", 3>> >>, << <<"ipv4", 3>>, <<"ipv4vpn", 3>> >> }
-FamSide == [mp : SUBSET Fam, ap : ApLists, enh : SUBSET Fam]
+\* ord: the order of the capabilities inside the OPEN - Multiprotocol before ADD-PATH (what this daemon sends), ADD-PATH first,
+\* or a Multiprotocol capability repeated after ADD-PATH.  The order carries no meaning.
+FamSide ==      [mp : SUBSET Fam, ap : ApLists, enh : SUBSET Fam, ord : {"mp_ap"}]
+           \cup [mp : SUBSET Fam, ap : {<< <<"ipv4", 3>> >>, << <<"ipv4", 1>> >>}, enh : {{}}, ord : {"ap_mp", "mp_ap_mp"}]
 
 \* the mode a side advertises for f: none, or - when all its entries for f agree - that mode; "open" when they conflict
 Modes(side, f) == {side.ap[i][2] : i \in {j \in 1..Len(side.ap) : side.ap[j][1] = f}}
